@@ -4,7 +4,8 @@ use super::*;
 use nucleo_matcher::{Config, Utf32Str};
 
 fn col(bytes: &[u8; 2]) -> Utf32String {
-    Utf32String::from(std::str::from_utf8(bytes).unwrap())
+    // built directly (String conversion is C17's subject and would drag the grapheme segmenter in)
+    Utf32String::Ascii(unsafe { String::from_utf8_unchecked(bytes.to_vec()) }.into_boxed_str())
 }
 
 /// two columns, one positive and one negated one-character atom (concrete pattern texts, parsed by
